@@ -15,7 +15,8 @@ GW = ("10.0.0.2", 3671)
 
 class GatewaySim:
     def __init__(self, loop, kind: str = "udp", auto_reconnect: bool = True, auto_reconnect_wait: int = 3,
-                 tun_plan=(), connect_plan=(), hb_plan=(), disc_plan=(), late: float = 1.5, first_chan: int = 7):
+                 tun_plan=(), connect_plan=(), hb_plan=(), disc_plan=(), late: float = 1.5, first_chan: int = 7,
+                 route_back: bool = False):
         from xknx import XKNX
         from xknx.io import TCPTunnel, UDPTunnel
 
@@ -37,7 +38,7 @@ class GatewaySim:
         if kind == "udp":
             self.tun = UDPTunnel(self.xknx, gateway_ip=GW[0], gateway_port=GW[1], local_ip="10.0.0.1",
                                  cemi_received_callback=self._up, auto_reconnect=auto_reconnect,
-                                 auto_reconnect_wait=auto_reconnect_wait)
+                                 auto_reconnect_wait=auto_reconnect_wait, route_back=route_back)
         else:
             self.tun = TCPTunnel(self.xknx, gateway_ip=GW[0], gateway_port=GW[1], cemi_received_callback=self._up,
                                  auto_reconnect=auto_reconnect, auto_reconnect_wait=auto_reconnect_wait)
@@ -49,7 +50,7 @@ class GatewaySim:
         return ms(self.loop.time())
 
     def log(self, ev: str, **kw) -> None:
-        d = {"ev": ev, "t": self.now()}
+        d = {"ev": ev, "t": self.now(), "it": self.loop.iteration}
         d.update(kw)
         self.ev.append(d)
 
@@ -187,6 +188,8 @@ class GatewaySim:
                 self.deliver(ack(chan=99))
             elif r == "wrongseq":
                 self.deliver(ack(seq=(s + 1) % 256))
+            elif r == "disc":          # no acknowledgement: the server ends the tunnel while the request is pending
+                self.server_disconnect(delay=0.3)
             # "lost": nothing
             self.last_tun_seq = s
         elif isinstance(b, TunnellingAck):
